@@ -6,7 +6,9 @@
 package guard
 
 import (
+	"errors"
 	"sync/atomic"
+	"unsafe"
 
 	"github.com/d5/tengo/v2"
 	"github.com/d5/tengo/v2/parser"
@@ -48,11 +50,21 @@ func (s *State) Reason() string {
 // Steps returns the number of dispatched instructions.
 func (s *State) Steps() int64 { return atomic.LoadInt64(&s.steps) }
 
+// ErrStopped is the panic value with which the guard stops the VM goroutine
+// before the current instruction executes (RunContext recovers it and
+// returns it as the run's error).
+var ErrStopped = errors.New("verif guard: run stopped before an excluded operation")
+
 func (s *State) stop(v *tengo.VM, why string) {
 	if atomic.CompareAndSwapInt32(&s.Stopped, 0, 1) {
 		s.reason.Store(why)
 	}
 	v.Abort()
+	if why != "budget" {
+		// Abort only takes effect at the next dispatch; the excluded
+		// operation must not execute at all
+		panic(ErrStopped)
+	}
 }
 
 // Install sets the process-wide probe; call the returned func to remove it.
@@ -181,6 +193,14 @@ func (s *State) mayCycle(root, val tengo.Object) bool {
 	if len(fromVal) == 0 {
 		return false
 	}
+	// arrays are views: two array objects over one backing array alias each
+	// other's elements, so storage ranges count as well as object identity
+	var ranges [][2]uintptr
+	for o := range fromVal {
+		if r, ok := storage(o); ok {
+			ranges = append(ranges, r)
+		}
+	}
 	hit := false
 	seen := map[tengo.Object]bool{}
 	var walk func(o tengo.Object, d int)
@@ -196,10 +216,38 @@ func (s *State) mayCycle(root, val tengo.Object) bool {
 			hit = true
 			return
 		}
+		if r, ok := storage(o); ok {
+			for _, q := range ranges {
+				if r[0] < q[1] && q[0] < r[1] {
+					hit = true
+					return
+				}
+			}
+		}
 		each(o, func(e tengo.Object) { walk(e, d+1) })
 	}
 	walk(root, 0)
 	return hit
+}
+
+// storage returns the address range of an array's backing storage
+// (including spare capacity).
+func storage(o tengo.Object) ([2]uintptr, bool) {
+	var v []tengo.Object
+	switch x := o.(type) {
+	case *tengo.Array:
+		v = x.Value
+	case *tengo.ImmutableArray:
+		v = x.Value
+	default:
+		return [2]uintptr{}, false
+	}
+	if cap(v) == 0 {
+		return [2]uintptr{}, false
+	}
+	full := v[:cap(v)]
+	start := uintptr(unsafe.Pointer(&full[0]))
+	return [2]uintptr{start, start + uintptr(cap(v))*unsafe.Sizeof(full[0])}, true
 }
 
 func isContainer(o tengo.Object) bool {
